@@ -213,6 +213,8 @@ def run_sim_class(chk, cls, scs, mons, variant=None, batch=250, tag=None):
         # for every request (legal use of the API; the simulator must have taken what it needs at hand-over)
         if "reuse_commands" not in sc and k % 3 == 1:
             sc["reuse_commands"] = True
+        if "fresh_controllers" not in sc and k % 2 == 0:
+            sc["fresh_controllers"] = True     # a new CommunicationController object for every range request
         # the harness' own default switches execution logging off; every fourth scenario runs under the
         # library's default configuration (execution_logging=True) instead
         if variant is None and "variant" not in sc and k % 4 == 2:
@@ -267,7 +269,7 @@ def run_sim_class(chk, cls, scs, mons, variant=None, batch=250, tag=None):
 
 def _brief(sc):
     d = {k: sc[k] for k in ("handlers", "nodes", "med", "mob", "asserts", "seed", "dur", "maxit", "drv", "script")}
-    for k in ("reuse_commands", "stream"):
+    for k in ("reuse_commands", "fresh_controllers", "variant", "stream"):
         if k in sc:
             d[k] = sc[k]
     return d
@@ -1010,7 +1012,7 @@ def gen_pair_C13(R):
         for sc in (with_, without):
             for rs in sc["script"]:
                 for r in rs:
-                    r["acts"] = [a for a in r["acts"] if not (a[0] == "send" and a[2] is not None and a[2] >= nn - 1)]
+                    r["acts"] = [a for a in r["acts"] if not (a[0] == "send" and isinstance(a[2], int) and a[2] >= nn - 1)]
             sc["script"] = [[r for r in rs if r["acts"]] for rs in sc["script"]]
     else:
         without["script"][x] = []
